@@ -352,9 +352,13 @@ type spliceOut struct {
 	src   strings.Builder
 	marks map[int]string
 	code  [][2]int
+	gap   string // white space written between a directive's name and its parenthesis
 }
 
 func (o *spliceOut) construct(kw, full string) {
+	if o.gap != "" && strings.HasPrefix(full, kw+"(") {
+		full = kw + o.gap + full[len(kw):]
+	}
 	o.marks[o.src.Len()] = kw
 	from := o.src.Len()
 	o.src.WriteString(full)
@@ -385,6 +389,24 @@ func spliceRender(items []spliceItem, o *spliceOut) string {
 				o.construct("@else", "@else")
 				els = spliceRender(it.Else, o)
 			}
+			o.construct("@end", "@end")
+			if it.Cond {
+				out.WriteString(body)
+			} else {
+				out.WriteString(els)
+			}
+		case "elseif":
+			// @if(false) .. @elseif(c) Body @else Else @end
+			o.construct("@if", "@if(false)")
+			o.src.WriteString("n")
+			cond := "false"
+			if it.Cond {
+				cond = "true"
+			}
+			o.construct("@elseif", "@elseif("+cond+")")
+			body := spliceRender(it.Body, o)
+			o.construct("@else", "@else")
+			els := spliceRender(it.Else, o)
 			o.construct("@end", "@end")
 			if it.Cond {
 				out.WriteString(body)
@@ -457,11 +479,13 @@ func genSpliceItems(depth int) *rapid.Generator[[]spliceItem] {
 		n := rapid.IntRange(0, 4).Draw(rt, "n")
 		var items []spliceItem
 		for i := 0; i < n; i++ {
-			k := rapid.IntRange(0, 11).Draw(rt, "kind")
+			k := rapid.IntRange(0, 12).Draw(rt, "kind")
 			if depth <= 0 && k >= 7 {
 				k = 0
 			}
 			switch {
+			case k == 12:
+				items = append(items, spliceItem{Kind: "elseif", Cond: rapid.Bool().Draw(rt, "cond"), Body: genSpliceItems(depth-1).Draw(rt, "body"), Else: genSpliceItems(depth-1).Draw(rt, "else")})
 			case k <= 3:
 				parts := rapid.SliceOfN(rapid.SampledFrom(c05SpliceTexts), 1, 3).Draw(rt, "text")
 				items = append(items, spliceItem{Kind: "text", Text: strings.Join(parts, "")})
@@ -526,11 +550,11 @@ func spliceSound(src string, o *spliceOut) (ok bool, why string) {
 
 func TestC05_Splice(t *testing.T) {
 	c := harness.New(t, "C05", "splice",
-		"random templates made of adversarial text runs (starting with }}, }, ), --}}; escapes; multi-byte; CRLF) spliced around {{ literal }}, @if/@else/@end with literal conditions, @each over literal arrays, @each/@for loops whose body holds @breakIf / @continueIf / @if(..)@break@end / @if(..)@continue@end firing in a chosen pass (or never) between two stretches of items, and comments, nested to depth 2; output must be the concatenation of the text runs (minus escape backslashes) and the blocks' known outputs. Cases in which the reference scanner says a text run would merge with a neighbouring construct are skipped. Non-trivial: >= 1 construct and a text run that contains one of @ \\ { } ) or non-ASCII directly after a construct. Distinct by hash of the source.")
+		"random templates made of adversarial text runs (starting with }}, }, ), --}}; escapes; multi-byte; CRLF) spliced around {{ literal }}, @if/@else/@end and @if/@elseif/@else/@end with literal conditions, @each over literal arrays, @each/@for loops whose body holds @breakIf / @continueIf / @if(..)@break@end / @if(..)@continue@end firing in a chosen pass (or never) between two stretches of items, and comments, nested to depth 2, every directive of a case written with the same white space (none, blank, tab, LF, CR LF, two blanks) between its name and its parenthesis; output must be the concatenation of the text runs (minus escape backslashes) and the blocks' known outputs. Cases in which the reference scanner says a text run would merge with a neighbouring construct are skipped. Non-trivial: >= 1 construct and a text run that contains one of @ \\ { } ) or non-ASCII directly after a construct. Distinct by hash of the source.")
 	defer c.Finish()
 	runRapid(t, c, 40000, 360000, func(rt *rapid.T) {
 		items := genSpliceItems(2).Draw(rt, "items")
-		o := &spliceOut{marks: map[int]string{}}
+		o := &spliceOut{marks: map[int]string{}, gap: rapid.SampledFrom([]string{"", "", "", " ", "\t", "\n", "\r\n", "  "}).Draw(rt, "headerGap")}
 		want := spliceRender(items, o)
 		src := o.src.String()
 		if ok, why := spliceSound(src, o); !ok {
@@ -583,7 +607,7 @@ func hasEmptyBody(items []spliceItem) bool {
 			if len(it.Body) == 0 {
 				return true
 			}
-		case "ifelse":
+		case "ifelse", "elseif":
 			if len(it.Body) == 0 || len(it.Else) == 0 {
 				return true
 			}
